@@ -156,17 +156,31 @@ def run(tier, seed):
     for i, t in enumerate(["", "\n", "GO\n", "USE db1;\nGRANT ALL ON x TO y;\n", "-- only a comment\n", "INSERT INTO t VALUES (1);\n",
                            "SET a = 1;\n", "CREATE SEQUENCE s1 START 1;\nSET b = 2;\n", "/* block */\nCREATE SCHEMA sc1;\n"]):
         inputs.append((f"special:{i}", t, {}, []))
+    # statements that yield a table entry without defining columns, and every numeric / literal default form on every size form
+    for i, t in enumerate(["DROP TABLE d1;\n", "DROP TABLE s1.d2;\nCREATE TABLE t1 (a int);\n", "CREATE TABLE t2 LIKE t1;\n", "CREATE TABLE t3 (LIKE t1);\n",
+                           "CREATE TABLE t4 CLONE t1;\n", "CREATE TABLE t5 (a int);\nALTER TABLE t5 ADD UNIQUE (a);\nCREATE INDEX i1 ON t5 (a);\n"]):
+        inputs.append((f"columnless:{i}", t, {}, []))
+    tys = ["int", "decimal(10,2)", "numeric(12,4)", "number(8,4)", "float", "varchar(10)", "double precision", "number(*,2)"]
+    dfs = ["0", "5", "-1", "0.00", "1.5", "+2.50", "-0.2000", "1e5", "'x'", "'0.00'", "NULL", "CURRENT_TIMESTAMP", "(1.25)", "now()", "TRUE", "12345678901234567890", ".5"]
+    for i, ty in enumerate(tys):
+        cols = ", ".join(f"c{j} {ty} DEFAULT {d}" for j, d in enumerate(dfs))
+        inputs.append((f"defaults:{ty}", f"CREATE TABLE td{i} (k int, {cols});\n", {}, []))
+        inputs.append((f"defaults-alter:{ty}", f"CREATE TABLE ta{i} (k int);\n" + "".join(f"ALTER TABLE ta{i} ADD c{j} {ty} DEFAULT {d};\n" for j, d in enumerate(dfs)), {}, []))
     corp = CP.harvest()
     for i, r in enumerate(corp):
         inputs.append((f"corpus:{i}", r["text"], r["ctor"], []))
     cov["inputs"] = {"generated": len(inputs) - len(corp), "corpus": len(corp)}
+    allmodes = K.MODES
     modes = K.MODES if thorough else ["sql", "bigquery", "hql"] + rnd.sample([m for m in K.MODES if m not in ("sql", "bigquery", "hql")], 1)
     tasks, meta = [], []
     for lab, text, ctor, tags in inputs:
-        for m in modes:
+        for m in (allmodes if lab.startswith(("special", "columnless", "defaults")) else modes):
             for nn in (False, True):
                 for gb in (False, True):
-                    if (not thorough and ((nn or gb) and rnd.random() < 0.75 or (m != "sql" and rnd.random() < 0.4))) or \
+                    few = lab.startswith(("special", "columnless", "defaults"))      # the hand-written scripts run in every configuration
+                    if few:
+                        pass
+                    elif (not thorough and ((nn or gb) and rnd.random() < 0.75 or (m != "sql" and rnd.random() < 0.4))) or \
                             (thorough and m not in ("sql", "bigquery", "hql") and rnd.random() < 0.7):
                         continue
                     c = dict(ctor)
